@@ -5,12 +5,13 @@ set -e
 FEAT=fa; REFRESH=0
 while getopts "f:r" o; do case $o in f) FEAT=$OPTARG;; r) REFRESH=1;; esac; done; shift $((OPTIND-1))
 case $FEAT in fa) F=std,alloc,lfn,unicode;; fn) F=std,lfn,unicode;; fu) F=std,alloc,lfn;; esac
-D=/var/tmp/dev-$FEAT
+V=$(cd "$(dirname "$0")/.."; pwd)
+D=/var/tmp/dev-$FEAT$(echo $V | tr / _ | sed s/_verif$//)
 if [ $REFRESH = 1 ] || [ ! -d $D/repo ]; then
   mkdir -p $D; rsync -a --delete --exclude /target --exclude /.git --exclude /tmp /repo/ $D/repo/
-  python3 - "$D/repo" <<'PY'
+  python3 - "$D/repo" "$V" <<'PY'
 import sys, os
-sys.path.insert(0, '/verif')
+sys.path.insert(0, sys.argv[2])
 from lib import kani as K, common as C
 repo = sys.argv[1]
 C_KANI = C.KANI_DIR
